@@ -130,6 +130,8 @@ def generate(prop: str) -> dict:
     """Write Gen/<prop>.lean; return {kernel: 'translated'|'skipped: reason'}."""
     from . import recipes  # noqa: F401  (fills REGISTRY)
 
+    recipes.load(prop)
+
     kernels = REGISTRY.get(prop, [])
     status: dict[str, str] = {}
     chunks: list[str] = []
